@@ -60,6 +60,7 @@ pub enum ExecutionError {
     MerkleStoreUpdateFailed(MerkleError),
     NotBinaryValue(Felt),
     NotU32Value(Felt, Felt),
+    OutputStackOverflow(usize),
     ProverError(ProverError),
     SmtNodeNotFound(Word),
     SmtNodePreImageNotValid(Word, usize),
@@ -153,6 +154,9 @@ impl Display for ExecutionError {
             MalformedSignatureKey(signature) => write!(f, "Malformed signature key: {signature}"),
             MemoryAddressOutOfBounds(addr) => {
                 write!(f, "Memory address cannot exceed 2^32 but was {addr}")
+            }
+            OutputStackOverflow(size) => {
+                write!(f, "The stack holds {size} elements at the end of program execution, which is more than can be returned as stack outputs")
             }
             MerklePathVerificationFailed { value, index, root } => {
                 let value = to_hex(Felt::elements_as_bytes(value))?;
